@@ -64,13 +64,25 @@ def to_stimulus(steps, rng, bid):
 
 
 def stranded_at(events, line, group):
-    """situation of the open finding at the failing trace line (1-based line of the run's trace): an active
-    member of `group` is served by a server that does not lead the partition, before or after the step"""
-    for ev in events[max(0, line - 2):line]:
+    """situation of the open finding C13-member-stranded-on-former-leader at the failing trace line (1-based line of
+    the run's trace), read from the RECORDED states: before or after the step an active member of `group` is served by
+    a server that does not lead the partition AND that server led the partition when the member subscribed (so a
+    leader change left it behind).  A group member that was accepted by a server that did not lead at the time is a
+    different matter and keeps its own signature."""
+    start = min(line, len(events)) - 1
+    while start > 0 and events[start].get('a') != 'Open':
+        start -= 1
+    for ev in events[max(start, line - 2):line]:
         st = ev.get('st') or {}
-        for x in st.get('subs', []):
-            if x['g'] and (group is None or x['g'] == group) and x['open'] and x['loop'] and x['n'] != st.get('ldr'):
-                return True
+        for i, x in enumerate(st.get('subs', [])):
+            if not (x['g'] and (group is None or x['g'] == group) and x['open'] and x['loop'] and x['n'] != st.get('ldr')):
+                continue
+            for e2 in events[start:line]:
+                st2 = e2.get('st') or {}
+                if len(st2.get('subs', [])) > i:
+                    if st2.get('ldr') == x['n']:
+                        return True
+                    break
     return False
 
 
